@@ -270,6 +270,7 @@ class ParseAsDatetime:
 class IsXtagLimit:
     """fulfilled iff the string parses to an aware datetime whose instant is the limit of the division's day (and the
     conversion does not leave the representable range); message iff unfulfilled; never raises"""
+    runtime_checkable = True
     ghost_native = GHOST_NATIVE
     concretize = _concretize_string
     params = dict(entered_input=Opt(Str()), division=AnyOf(Const("Strom"), Const("Gas")))
@@ -304,6 +305,7 @@ class IsXtagLimit:
 @contract(G + "has_no_utc_offset", prop=["C20"])
 class HasNoUtcOffset:
     """931: fulfilled iff the datetime is written with a zero UTC offset (whatever the time of day)"""
+    runtime_checkable = True
     ghost_native = GHOST_NATIVE
     concretize = _concretize_string
     params = dict(entered_input=Opt(Str()))
